@@ -5,6 +5,7 @@ package prog
 
 import (
 	"fmt"
+	"go/ast"
 	"go/token"
 	"go/types"
 	"os"
@@ -44,6 +45,7 @@ type Program struct {
 	CG       *Graph
 	LoadNote []string
 	implCache map[*types.Func][]*ssa.Function
+	genFiles  map[string]bool
 }
 
 // InModule reports whether the import path belongs to the analysed module.
@@ -376,4 +378,31 @@ func (p *Program) LookupType(pkgPath, name string) *types.Named {
 	}
 	n, _ := o.Type().(*types.Named)
 	return n
+}
+
+// IsGenerated reports whether f is declared in a generated file
+// ("// Code generated ... DO NOT EDIT."), e.g. protoc-gen-gogo output.
+func (p *Program) IsGenerated(f *ssa.Function) bool {
+	if p.genFiles == nil {
+		p.genFiles = map[string]bool{}
+		for _, pk := range p.Pkgs {
+			for _, file := range pk.Syntax {
+				if ast.IsGenerated(file) {
+					p.genFiles[p.Fset.Position(file.Pos()).Filename] = true
+				}
+			}
+		}
+	}
+	for x := f; x != nil; x = x.Parent() {
+		if x.Pos().IsValid() {
+			return p.genFiles[p.Fset.Position(x.Pos()).Filename]
+		}
+		if x.Synthetic != "" && x.Parent() == nil {
+			// wrappers: look at the wrapped object
+			if o := x.Object(); o != nil && o.Pos().IsValid() {
+				return p.genFiles[p.Fset.Position(o.Pos()).Filename]
+			}
+		}
+	}
+	return false
 }
